@@ -13,8 +13,9 @@ from harness.framework import Suite
 
 PID = "C20"
 TRANSLATE = True
-TRANSLATE_ALGO = ["AlgoTraverse", "AlgoTravFront", "AlgoRaster", "AlgoImgIo"]   # harness/algo_specs/18_raster.py: image_stack.py::_tp3f, ToImageStack._get_samplers / _get_scene (+ leave) / transform; 18b_imgio.py: images/io.py::read_imgs, save_tiff, TiffImageStack / NDArrayImageStack.__init__, __getitem__, get_full
-DRIVER_FILES = ["SwcVerif/Model/AlgoRunRaster.lean", "SwcVerif/Model/PyRaster.lean", "SwcVerif/Model/AlgoRunImgIo.lean", "SwcVerif/Model/PyImgIo.lean"]
+TRANSLATE_ALGO = ["AlgoTraverse", "AlgoTravFront", "AlgoRaster", "AlgoImgIo", "AlgoImgIo2"]   # harness/algo_specs/18_raster.py: image_stack.py::_tp3f, ToImageStack._get_samplers / _get_scene (+ leave) / transform; 18b_imgio.py: images/io.py::read_imgs, save_tiff, TiffImageStack / NDArrayImageStack.__init__, __getitem__, get_full
+DRIVER_FILES = ["SwcVerif/Model/AlgoRunRaster.lean", "SwcVerif/Model/PyRaster.lean", "SwcVerif/Model/AlgoRunImgIo.lean", "SwcVerif/Model/PyImgIo.lean",
+                "SwcVerif/Model/AlgoRunImgIo2.lean", "SwcVerif/Model/PyImgIo2.lean"]
 LEAN_MODS = ["SwcVerif.Props.C20", "SwcVerif.Props.C20Gen", "SwcVerif.Props.C20Io"]
 THEOREMS = [
     "C20.consts_pinned", "C20.save_puts_z_first", "C20.axes_roundtrip", "C20.axes_roundtrip_3d", "C20.unknown_axis", "C20.rescale_table",
@@ -1228,8 +1229,193 @@ class ImgIoGen(Suite):
     def nontrivial(self, case, res):
         return "exc" not in res
 
+# ----------------------------------------------------------------------------- Gen/AlgoImgIo2.lean (harness/algo_specs/18c_imgio2.py) against the real code
+class ImgIo2Gen(Suite):
+    """`ToImageStack.__call__ / save_tif / transform_and_save`, the frame conversion of `transform`, `NrrdImageStack` / `V3d*ImageStack.__init__`,
+    `ImageStack.get_full`, `GrayImageStack.get_full` as TRANSLATED (driver ops of Model/AlgoRunImgIo2.lean) against the real code: `np.stack` of given
+    frames, the `TiffWriter.write` calls (recorded in-process), a REAL transform_and_save -> file -> read_imgs round trip against generated
+    save_tif ∘ codec model ∘ generated TiffImageStack.__init__ (one-plane and empty files included), the constructors with the codec replaced by a
+    stand-in, and a real rasterisation whose sampler answers are recorded and handed to the generated `transform`"""
+    name = "c20.imgio2-gen"
+    case_timeout = 60
+    OPS = ["call", "savew", "saveio", "nrrd", "v3d", "v3draw", "v3dpbd", "full", "gray", "frame"]
 
-SUITES = [SaveLoad(), Raster(), ImgIoGen()]
+    def cases(self, rng, tier, widen):
+        n = 60 if tier == "thorough" or widen else 24
+        out = []
+        for i in range(n):
+            op = self.OPS[i % len(self.OPS)]
+            c = {"op": op, "seed": rng.randrange(10**6), "class": f"gen2/{op}"}
+            if op in ("call", "savew", "saveio"):
+                c.update(kind="u8", shape=[rng.choice([0, 1, 2, 2, 3, 4]) if op != "savew" else rng.randint(1, 4), rng.randint(1, 3), rng.randint(1, 3)],
+                         rag=op == "call" and rng.random() < 0.25, rd=rng.choice([None, "u8", "f32", "u16"]))
+                if c["rag"] and c["shape"][0] < 2:
+                    c["shape"][0] = 2
+            elif op in ("nrrd", "v3d", "v3draw", "v3dpbd"):
+                rank = rng.choice([3, 4, 4, 2, 5]) if rng.random() < 0.3 else rng.choice([3, 4])
+                c.update(kind=rng.choice(["u8", "u16", "f32"]), shape=[rng.randint(1, 3) for _ in range(rank)], to=rng.choice([None, "u8", "u16", "f32"]))
+            elif op in ("full", "gray"):
+                rank = rng.choice([4, 4, 4, 3, 5]) if op == "gray" else rng.choice([4, 4, 3, 5])
+                c.update(kind=rng.choice(["u8", "f32"]), shape=[rng.randint(1, 3) for _ in range(rank)])
+                if op == "gray" and rng.random() < 0.15:
+                    c["shape"][-1] = 0
+            else:
+                t = gen.tree_case(rng, rng.choice([2, 3]), "chain", numbering="sorted", coords="lattice")
+                t["xyz"] = [[v / 4.0 for v in p] for p in t["xyz"]]
+                t["r"] = [rng.choice([0.5, 1.0]) for _ in t["r"]]
+                c.update(tree=t, res=rng.choice([1.0, 0.5, [1.0, 0.5, 2.0]]))
+            out.append(c)
+        return out
+
+    @staticmethod
+    def array(case):
+        r = np.random.RandomState(case["seed"])
+        if case["kind"] == "f32":
+            return (r.randint(0, 257, size=case["shape"]) / 256.0).astype(np.float32)
+        return r.randint(0, 256 if case["kind"] == "u8" else 65536, size=case["shape"]).astype(_DT[case["kind"]])
+
+    def frames(self, case):
+        a = self.array(case)
+        fs = [a[i].copy() for i in range(a.shape[0])]
+        if case.get("rag"):
+            fs[-1] = fs[-1].reshape(fs[-1].shape + (1,))
+        return fs
+
+    def run(self, case):
+        import nrrd
+        import tifffile
+        from swcgeom.images import io
+        from swcgeom.transforms import ToImageStack
+        import swcgeom.transforms.image_stack as mod
+        import logging
+        logging.getLogger("tifffile").setLevel(logging.CRITICAL)      # the one-page / empty files are meant
+        op = case["op"]
+        try:
+            with warnings.catch_warnings(record=True) as ws:
+                warnings.simplefilter("always")
+                if op in ("call", "savew", "saveio"):
+                    tis = ToImageStack(1)
+                    fs = self.frames(case)
+                    tis.transform = lambda x, verbose=True, **kw: iter(fs)
+                    if op == "call":
+                        return {"arr": _arr_text(tis(None))}
+                    if op == "savew":
+                        rec = []
+
+                        class W:
+                            def __init__(self_, *a_, **k_): pass
+                            def __enter__(self_): return self_
+                            def __exit__(self_, *a_): return False
+                            def write(self_, frame, **kw): rec.append((np.array(frame), kw))
+                        orig = tifffile.TiffWriter
+                        tifffile.TiffWriter = W
+                        try:
+                            tis.transform_and_save("unused.tif", None, verbose=False)
+                        finally:
+                            tifffile.TiffWriter = orig
+                        return {"writes": [f"{_arr_text(f)};{int(kw['contiguous'] is True)};{kw['photometric']};{kw['metadata']['axes']}" for f, kw in rec],
+                                "keys": sorted(set(k for _, kw in rec for k in kw))}
+                    tmp = tempfile.mkdtemp(prefix="c20h_")
+                    try:
+                        fn = os.path.join(tmp, "s.tif")
+                        tis.transform_and_save(fn, None, verbose=False)
+                        try:
+                            st = io.read_imgs(fn, dtype=None if case["rd"] is None else _DT[case["rd"]])
+                        except Exception as e:  # noqa: BLE001 - an empty / one-page file: whatever the reader raises
+                            return {"exc": type(e).__name__}
+                        return {"arr": _arr_text(st.get_full()), "warnings": len([w for w in ws if "reset unexcept axes" in str(w.message)])}
+                    finally:
+                        shutil.rmtree(tmp, ignore_errors=True)
+                a = None if op == "frame" else self.array(case)
+                if op in ("nrrd", "v3d", "v3draw", "v3dpbd"):
+                    to = None if case["to"] is None else _DT[case["to"]]
+
+                    class L:
+                        def load(self_, fname): return a.copy()
+                    saved = (nrrd.read, io.Raw, io.PBD)
+                    nrrd.read = lambda fname, **kw: (a.copy(), {"k": 1})
+                    io.Raw = io.PBD = L
+                    try:
+                        st = {"nrrd": lambda: io.NrrdImageStack("f", dtype=to), "v3d": lambda: io.V3dImageStack("f", L, dtype=to),
+                              "v3draw": lambda: io.V3drawImageStack("f", dtype=to), "v3dpbd": lambda: io.V3dpbdImageStack("f", dtype=to)}[op]()
+                    finally:
+                        nrrd.read, io.Raw, io.PBD = saved
+                    return {"arr": _arr_text(st.get_full())}
+                if op == "full":
+                    st = io.NDArrayImageStack.__new__(io.NDArrayImageStack)
+                    st.imgs = a.copy()                       # any rank: what `self[:, :, :, :]` does to the array
+                    return {"arr": _arr_text(io.ImageStack.get_full(st))}
+                if op == "gray":
+                    st = io.NDArrayImageStack.__new__(io.NDArrayImageStack)
+                    st.imgs = a.copy()
+                    return {"arr": _arr_text(io.GrayImageStack(st).get_full())}
+                # frame: a real rasterisation, the sampler answers recorded
+                voxels = []
+                orig = mod.RangeSampler
+
+                class RS:
+                    def __init__(self_, *a_): self_.s = orig(*a_)
+                    def sample(self_, scene):
+                        v = self_.s.sample(scene); voxels.append(np.array(v)); return v
+                mod.RangeSampler = RS
+                try:
+                    t = gen.make_tree(case["tree"])
+                    img = ToImageStack(case["res"])(t)
+                finally:
+                    mod.RangeSampler = orig
+                frames = list(img)
+                return {"voxels": _arr_text(np.stack(voxels, axis=0)), "vdtype": str(voxels[0].dtype), "frames": [_arr_text(f) for f in frames], "arr": _arr_text(img)}
+        except IndexError:
+            return {"exc": "IndexError"}
+        except (AssertionError, ValueError, KeyError) as e:
+            return {"exc": type(e).__name__}
+
+    def lines(self, case, res):
+        op = case["op"]
+        if op == "frame":
+            if "exc" in res:
+                return []
+            td = case["tree"]
+            pids = td["pids"]; xyz = td["xyz"]
+            d = [0.0] + [float(np.linalg.norm(np.array(xyz[c], dtype=np.float32) - np.array(xyz[pids[c]], dtype=np.float32))) for c in range(1, td["n"])]
+            fr = lambda v: str(Fraction(float(v)))
+            resv = case["res"] if isinstance(case["res"], list) else [case["res"]] * 3
+            sh, dt, data = res["voxels"].split("|")
+            line = (f"gframend pids={gen.ints(pids)} x={','.join(fr(p[0]) for p in xyz)} y={','.join(fr(p[1]) for p in xyz)} z={','.join(fr(p[2]) for p in xyz)} "
+                    f"r={','.join(fr(v) for v in td['r'])} d={','.join(fr(v) for v in d)} res={','.join(fr(v) for v in resv)} shape={sh} dt=f32 data={data}")
+            return [(line, " / ".join(res["frames"]) + " # " + res["arr"])]
+        a = self.array(case)
+        vals = [str(Fraction(int(v))) if a.dtype.kind in "ui" else str(Fraction(float(v))) for v in a.flatten().tolist()]
+        base = f"shape={gen.ints(case['shape'])} dt={case['kind']} data={','.join(vals)}"
+        if op == "call":
+            return [(f"gtostack {base} rag={int(case['rag'])}", "E" if "exc" in res else res["arr"])]
+        if op == "savew":
+            if "exc" in res:
+                return [(f"gsavetifw {base}", "E")]
+            # the keywords of `write` the translation knows (J4) are all there are
+            return [(f"gsavetifw {base}", lambda o, want=" / ".join(res["writes"]), keys=res["keys"]: o == want
+                     and keys == ["contiguous", "metadata", "photometric", "resolution"])]
+        if op == "saveio":
+            rd = case["rd"] or "none"
+            if "exc" in res:
+                return [(f"gsavetifio {base} rd={rd}", "E")]
+            exact = not (case["rd"] or "f32").startswith("f")
+            wtxt = ",".join(["0"] * res["warnings"])
+            return [(f"gsavetifio {base} rd={rd}", lambda o, want=res["arr"], exact=exact, wtxt=wtxt: len(o.split(";")) == 2 and o.split(";")[0] == wtxt
+                     and _same_arr(o.split(";")[1], want, exact))]
+        if op in ("full", "gray"):
+            return [(f"g{op} {base}", "E" if "exc" in res else res["arr"])]
+        to = case["to"] or "none"
+        if "exc" in res:
+            return [(f"g{op} {base} to={to}", "E")]
+        exact = not (case["kind"].startswith("u") and (case["to"] or "").startswith("f"))
+        return [(f"g{op} {base} to={to}", lambda o, want=res["arr"], exact=exact: _same_arr(o, want, exact))]
+
+    def nontrivial(self, case, res):
+        return "exc" not in res
+
+
+SUITES = [SaveLoad(), Raster(), ImgIoGen(), ImgIo2Gen()]
 TECHNIQUE = ("Lean 4 theorems about the axis bookkeeping on index tuples (load ∘ save = identity for every (X,Y,Z,C) index, with the axes string and AXES_ORDER "
              "regenerated from the source), the rescaling decision table and its exact inverse on integers, and the voxel grid over ℚ (centres at min+(i+½)·res, "
              "all inside the bounding box, none missing) + real tifffile/nrrd/npy round trips and a raster oracle away from the surface. PARTIAL: codecs and the SDF "
